@@ -5,14 +5,37 @@ ID = "C01"
 LEVEL = "exploration"
 FLAVOUR = "plain"
 TIMEOUT = 400
-RULE = ("union of complete products: S1 single column = kind x compression x page layout (v1|v2 x default|tiny "
-        "pages) [cell] x null pattern x n x has_nulls x stats; S2 two columns + index + splitting = ordered pairs "
-        "of 12 core kinds x index program x row_group_offsets x file_scheme x page version x n; S3 options = times, "
-        "object_encoding, fixed_text, per-column compression dict, sizes 8191/8192/8193. Every point = real "
+RULE = ("union of complete products: S1 single column = kind (mc/alphabets kinds + the local X_KINDS: 200-label "
+        "categorical with int16 codes, categorical with boolean labels, timedelta64[s|ms], datetimes with sub-second "
+        "digits / outside the ns range, "
+        "half-hour fixed offset and a second named zone) x compression (quick: None, SNAPPY, and LZ4 for one kind per "
+        "read branch) x page layout (v1|v2 x default|tiny pages) [cell] x null pattern x n (quick: 0,1,2,8,9, and "
+        "63,64,65 in the uncompressed cells) x "
+        "has_nulls x stats; S2 two columns + index + splitting = ordered pairs of 12 core kinds x index program x "
+        "row_group_offsets x file_scheme x page version x n; S3 options = times (x page version x tiny pages), "
+        "object_encoding (str and per-column dict), fixed_text, per-column compression dict, sizes 8191/8192/8193 "
+        "(+ 40000-label categorical with int32 codes), 'wide' = one 15-column frame with interleaved dtypes and "
+        "unsorted / dotted / non-ASCII names x row_group_offsets (None, list; ints 1,3,4,9,100,0 with n = 9 and 10) x "
+        "file_scheme x page version x tiny pages x index (range, int labels) x has_nulls (True; a partial list "
+        "where row_group_offsets is None or a list); "
+        "S4 index family = index kind (unnamed int, uint64 > 2^63, float64, nullable Int64, datetime64[s], tz-aware "
+        "datetime64[us], timedelta64[us], categorical, two-level MultiIndex, named / negative-step RangeIndex) x "
+        "column kind x n x row_group_offsets x file_scheme x page version. Every point = real "
         "fastparquet.write followed by ParquetFile(...).to_pandas(); refused (write raised) is never a violation; "
         "non-trivial = a file with >= 1 row was written, read back and compared cell by cell")
 ASSUMPTIONS = ["NaN == NULL == NaT as missingness; -0.0 == 0.0", "dtype compared by kind (see DESIGN.md section 3)",
-               "value pools of mc/alphabets.py", "pandas 3.0.5 as installed"]
+               "value pools of mc/alphabets.py and of X_KINDS in this file", "pandas 3.0.5 as installed",
+               "time zones are compared by their UTC offset at 6 probe instants (1900..2100, both DST halves), not by "
+               "name",
+               "an unnamed written index comes back named 'index' (pandas reset_index naming, pinned by the "
+               "repository's tests)"]
+
+# kinds that exist only in this check (mc/alphabets.py is shared; its pools are not touched)
+X_KINDS = ["cat_wide", "cat_bool", "td_s", "td_ms", "dt_ns_x", "dt_us_x", "dt_ms_x", "dt_s_x", "dt_ns_m0330", "dt_us_ny"]
+LZ4_KINDS_Q = ["bool", "int64", "float64", "str_obj", "dt_ns", "cat_str", "cat_wide", "Int64", "boolean"]
+OBJ_KINDS = ("str_obj", "str_pd", "bytes_obj", "json_obj")
+INDEX_KINDS = ["int_unnamed", "uint64", "float64", "Int64", "dt_s", "dt_us_tz", "td_us", "cat", "multi2",
+               "range_named", "range_neg"]
 
 COMPRESSIONS_Q = [None, "SNAPPY"]
 COMPRESSIONS_T = [None, "SNAPPY", "GZIP", "ZSTD", "LZ4", "BROTLI", "LZ4_RAW"]
@@ -23,28 +46,45 @@ def points(tier):
     from mc import alphabets as A
     pts = []
     comps = COMPRESSIONS_T if tier == "thorough" else COMPRESSIONS_Q
-    for kind in A.ALL_KINDS:
+    for kind in A.ALL_KINDS + X_KINDS:
         for comp in comps:
             for (ver, tiny) in LAYOUTS:
                 pts.append({"s": "S1", "kind": kind, "comp": comp, "v": ver, "tiny": tiny, "tier": tier})
+    if tier != "thorough":
+        # LZ4 hands back a buffer object and cannot decompress into the output: one kind per read branch
+        for kind in LZ4_KINDS_Q:
+            for (ver, tiny) in LAYOUTS:
+                pts.append({"s": "S1", "kind": kind, "comp": "LZ4", "v": ver, "tiny": tiny, "tier": tier})
     kinds2 = A.CORE_KINDS
     for k1, k2 in itertools.product(kinds2, repeat=2):
         if tier != "thorough" and (kinds2.index(k1) + kinds2.index(k2)) % 3:
             continue     # quick: a fixed third of the ordered pairs (thorough: all 144)
         for ver in (1, 2):
             pts.append({"s": "S2", "k1": k1, "k2": k2, "v": ver, "tier": tier})
-    for kind in ("dt_s", "dt_ms", "dt_us", "dt_ns", "dt_ns_utc", "dt_us_paris"):
+    for kind in ("dt_s", "dt_ms", "dt_us", "dt_ns", "dt_ns_utc", "dt_us_paris",
+                 "dt_ns_x", "dt_us_x", "dt_ms_x", "dt_s_x", "dt_ns_m0330", "dt_us_ny"):
         for times in ("int64", "int96"):
+            if times == "int96" and kind in ("dt_us_x", "dt_ms_x", "dt_s_x"):
+                continue      # int96 counts nanoseconds: years 1000 / 3000 are refused (OverflowError)
             pts.append({"s": "S3", "opt": "times", "kind": kind, "times": times})
     for enc in ("infer", "utf8", "bytes", "json", "bool", "int", "int32", "float"):
         pts.append({"s": "S3", "opt": "object_encoding", "enc": enc})
+    pts.append({"s": "S3", "opt": "object_encoding_dict"})
     pts.append({"s": "S3", "opt": "fixed_text"})
     pts.append({"s": "S3", "opt": "compdict"})
-    for kind in ("bool", "int64", "float64", "str_obj", "cat_str", "Int64"):
+    for kind in ("bool", "int64", "float64", "str_obj", "cat_str", "Int64", "cat_wide", "cat_wide32"):
         for n in (8191, 8192, 8193):
             if tier != "thorough" and n != 8192 and kind not in ("bool", "str_obj"):
                 continue
             pts.append({"s": "S3", "opt": "big", "kind": kind, "n": n})
+    for ver in (1, 2):
+        for tiny in (False, True):
+            for ip in ("default", "int_labels"):
+                pts.append({"s": "S3", "opt": "wide", "v": ver, "tiny": tiny, "index": ip, "tier": tier})
+    colkinds = A.CORE_KINDS if tier == "thorough" else ["int64", "str_obj", "cat_str", "Int64"]
+    for ik in INDEX_KINDS:
+        for ck in colkinds:
+            pts.append({"s": "S4", "ik": ik, "kind": ck, "tier": tier})
     return pts
 
 
@@ -54,10 +94,109 @@ def explore(run, tier):
 
 def crash_sig(point, res):
     s = {"s": point["s"], "symptom": res["outcome"]}
-    for k in ("kind", "comp", "v", "tiny", "k1", "k2", "opt"):
+    for k in ("kind", "comp", "v", "tiny", "k1", "k2", "opt", "ik"):
         if k in point:
             s[k] = point[k]
     return s
+
+
+# ---------------------------------------------------------------------------------------
+# local kinds (X_KINDS): value pools and series construction
+_WIDE_CATS = ["w%03d" % i for i in range(199, -1, -1)]        # 200 labels, category order != lexical order
+_WIDE32_CATS = None
+
+
+def is_nullable(kind):
+    from mc import alphabets as A
+    return kind in X_KINDS or kind == "cat_wide32" or kind in A.NULLABLE_KINDS
+
+
+def patterns_for(kind):
+    from mc import alphabets as A
+    return A.NULLPATS if is_nullable(kind) else ["none"]
+
+
+def xpool(kind):
+    """pool of a local kind; datetimes / timedeltas in the kind's own unit"""
+    if kind == "cat_wide":
+        return ["w000", "w199", "w127", "w128", "w064", "w199", "w001"]      # codes 199, 0, 72, 71, 135, 0, 198
+    if kind == "cat_bool":
+        return [True, False, False, True, True, False, True]
+    if kind == "cat_wide32":
+        return ["v00000", "v39999", "v32767", "v32768", "v00127", "v39999", "v00001"]
+    if kind == "td_s":
+        return [0, 1, -1, 86_400, 2_000_000, -5_000_000, 3_600]
+    if kind == "td_ms":
+        return [0, 1, -1, 86_400_000, 2_000_000, -5_000_000, 999]
+    if kind == "dt_ns_x":     # sub-second digits down to the nanosecond, also before the epoch
+        return [1_600_000_000_123_456_789, -1, 999_999_999, 0, 1_000_000_001, -86_399_999_999_999,
+                951_782_400_000_000_500]
+    if kind == "dt_us_x":     # sub-second digits + years 3000 / 1000 (outside the datetime64[ns] range)
+        return [1_600_000_000_123_456, -1, 999_999, 32_503_680_000_000_000, -30_610_224_000_000_000, 0, 1_000_001]
+    if kind == "dt_ms_x":
+        return [1_600_000_000_123, -1, 999, 32_503_680_000_000, -30_610_224_000_000, 0, 1_001]
+    if kind == "dt_s_x":
+        return [1_600_000_000, -1, 32_503_680_000, -30_610_224_000, 0, 1, 253_402_300_799]
+    raise KeyError(kind)
+
+
+def mk_series(kind, n, nullpat="none", offset=0, name="c"):
+    """mc.alphabets.series extended by the local kinds"""
+    import datetime
+    import numpy as np
+    import pandas as pd
+    from mc import alphabets as A
+    global _WIDE32_CATS
+    if kind not in X_KINDS and kind != "cat_wide32":
+        return A.series(kind, n, nullpat, offset, name)
+    mask = A.nullmask(nullpat, n)
+    if kind in ("dt_ns_m0330", "dt_us_ny"):
+        base = "dt_ns" if kind == "dt_ns_m0330" else "dt_us"
+        s = A.series(base, n, nullpat, offset, name).dt.tz_localize("UTC")
+        if kind == "dt_ns_m0330":
+            return s.dt.tz_convert(datetime.timezone(-datetime.timedelta(hours=3, minutes=30)))
+        return s.dt.tz_convert("America/New_York")
+    p = xpool(kind)
+    vals = [p[(i + offset) % len(p)] for i in range(n)]
+    if kind.startswith("cat_"):
+        if kind == "cat_wide":
+            cats = _WIDE_CATS
+        elif kind == "cat_bool":
+            cats = [True, False]
+        else:
+            if _WIDE32_CATS is None:
+                _WIDE32_CATS = ["v%05d" % i for i in range(40000)]
+            cats = _WIDE32_CATS
+        return pd.Series(pd.Categorical([None if m else v for v, m in zip(vals, mask)], categories=cats), name=name)
+    unit = kind.split("_")[1]
+    a = np.array(vals, dtype="int64").view(("m8[%s]" if kind.startswith("td_") else "M8[%s]") % unit).copy()
+    a[np.array(mask, dtype=bool)] = np.timedelta64("NaT") if kind.startswith("td_") else np.datetime64("NaT")
+    return pd.Series(a, name=name)
+
+
+_TZ_PROBES = ("1900-01-15", "1975-07-01", "2021-01-15", "2021-07-15", "2024-11-03 12:00", "2100-07-01")
+
+
+def tz_offsets(tz):
+    import pandas as pd
+    return [pd.Timestamp(t).tz_localize("UTC").tz_convert(tz).utcoffset().total_seconds() for t in _TZ_PROBES]
+
+
+def dtype_why(orig, got, kind):
+    """wr.dtype_ok + time zone identity (by UTC offset) + timedelta unit"""
+    import numpy as np
+    from mc import wr, oracles as O
+    why = wr.dtype_ok(orig, got, kind)
+    if why:
+        return why
+    o, g = O.dtype_kind(orig), O.dtype_kind(got)
+    if o[0] == "M" and g[0] == "M" and o[2][1] is not None and g[2][1] is not None:
+        a, b = tz_offsets(orig.tz), tz_offsets(got.tz)
+        if a != b:
+            return "time zone %s came back as %s (UTC offsets %r, written %r)" % (orig.tz, got.tz, b, a)
+    if o[0] == "m" and g[0] == "m" and o[2][0] != g[2][0]:
+        return "timedelta unit %s came back as %s" % (o[2][0], g[2][0])
+    return ""
 
 
 # ---------------------------------------------------------------------------------------
@@ -72,7 +211,7 @@ class Cell:
 
     def bad(self, symptom, detail, **extra):
         s = {"s": self.point["s"], "symptom": symptom}
-        for k in ("kind", "comp", "v", "tiny", "k1", "k2", "opt", "times", "enc"):
+        for k in ("kind", "comp", "v", "tiny", "k1", "k2", "opt", "times", "enc", "ik"):
             if k in self.point:
                 s[k] = self.point[k]
         s.update(self.ctx)
@@ -121,7 +260,12 @@ def roundtrip(c, df, kinds, what, path_kind="simple", unit_free=False, **wkw):
     for col in df.columns:
         kind = kinds[col]
         exp = O.series_to_list(df[col])
-        got = O.series_to_list(out[col])
+        try:
+            got = O.series_to_list(out[col])
+        except Exception as e:      # e.g. garbage tz-aware timestamps that pandas cannot localize
+            c.bad("wrong_value", "%s: column %s cannot be listed: %s: %s" % (what, col, type(e).__name__, str(e)[:150]),
+                  colkind=kind, unlistable=True)
+            continue
         i = O.first_diff(got, exp)
         if i is not None:
             c.bad("wrong_value", "%s: column %s row %d is %r, written %r" % (what, col, i, got[i], exp[i]), colkind=kind)
@@ -129,12 +273,12 @@ def roundtrip(c, df, kinds, what, path_kind="simple", unit_free=False, **wkw):
         # dtype: pandas 3 keeps df.dtypes stale after in-place category replacement; read the array's dtype
         gdt = out[col].array.dtype
         gdt = getattr(gdt, "numpy_dtype", gdt) if type(gdt).__name__ == "NumpyEADtype" else gdt
-        why = wr.dtype_ok(df[col].dtype, gdt, kind)
+        why = dtype_why(df[col].dtype, gdt, kind)
         if why and unit_free and why.startswith("datetime unit"):
             why = ""      # int96 is a nanosecond format: its documented canonical form is datetime64[ns]
-        if why and len(df):
+        if why:       # also for 0 rows
             c.bad("wrong_dtype", "%s: column %s: %s" % (what, col, why), colkind=kind)
-        if kind.startswith("cat_") and len(df):
+        if kind.startswith("cat_") and len(df):     # 0 rows: no row group, no dictionary page holds the labels
             why = wr.cat_ok(df[col], out[col])
             if why:
                 c.bad("wrong_categorical", "%s: column %s: %s" % (what, col, why), colkind=kind)
@@ -163,6 +307,9 @@ def check_index(c, df, out, what, written):
             if got != exp:
                 c.bad("wrong_index", "%s: regenerated range index %r..., original %r..." % (what, got[:4], exp[:4]),
                       part="range")
+            elif out.index.name != df.index.name:
+                c.bad("wrong_index", "%s: range index name %r, written %r" % (what, out.index.name, df.index.name),
+                      part="name")
 
 
 def run(point):
@@ -175,13 +322,17 @@ def run_S1(c, p):
     from mc import alphabets as A, wr
     kind, comp, ver, tiny = p["kind"], p["comp"], p["v"], p["tiny"]
     ns = A.N_THOROUGH if p["tier"] == "thorough" else A.N_QUICK
+    if p["tier"] != "thorough" and comp is None:
+        ns = ns + [63, 64, 65]     # level / bit-pack framing does not depend on the codec: uncompressed cells only
     hn_list = [True, False, "infer", ["c"]] if p["tier"] == "thorough" else [True, "infer"]
+    if p["tier"] != "thorough" and kind in OBJ_KINDS:
+        hn_list = [True, False, "infer"]     # 'infer' means True for object columns: REQUIRED text needs False
     stats_list = [True, False, "auto"] if p["tier"] == "thorough" else ["auto"]
-    for pat in A.patterns_for(kind):
+    for pat in patterns_for(kind):
         for n in ns:
             if pat != "none" and n == 0:
                 continue
-            df = A.series(kind, n, pat).to_frame()
+            df = mk_series(kind, n, pat).to_frame()
             ps = wr.tiny_page_size(df, max(1, n // 3)) if tiny and n else None
             for hn in hn_list:
                 for st in stats_list:
@@ -250,10 +401,15 @@ def run_S3(c, p):
     opt = p["opt"]
     if opt == "times":
         for pat in ("none", "alt"):
-            df = A.series(p["kind"], 9, pat).to_frame()
-            c.ctx = {"nulls": pat}
-            roundtrip(c, df, {"c": p["kind"]}, "S3 times=%s %s nulls=%s" % (p["times"], p["kind"], pat), times=p["times"],
-                      unit_free=p["times"] == "int96")
+            df = mk_series(p["kind"], 9, pat).to_frame()
+            for ver, tiny in ((None, False), (1, True), (2, False), (2, True)):
+                c.ctx = {"nulls": pat} if ver is None else {"nulls": pat, "v": ver, "tiny": tiny}
+                what = "S3 times=%s %s nulls=%s v=%s tiny=%s" % (p["times"], p["kind"], pat, ver, tiny)
+                if ver is None:       # the library's default page configuration, as before
+                    roundtrip(c, df, {"c": p["kind"]}, what, times=p["times"], unit_free=p["times"] == "int96")
+                    continue
+                with wr.PageCfg(ver, wr.tiny_page_size(df, 3) if tiny else None):
+                    roundtrip(c, df, {"c": p["kind"]}, what, times=p["times"], unit_free=p["times"] == "int96")
     elif opt == "object_encoding":
         enc = p["enc"]
         cols = {"infer": ["str_obj", "bytes_obj", "json_obj"], "utf8": ["str_obj"], "bytes": ["bytes_obj"],
@@ -274,6 +430,20 @@ def run_S3(c, p):
                     df = A.series(kind, 9, pat).to_frame()
                     c.ctx = {"nulls": pat, "objkind": kind}
                     roundtrip(c, df, {"c": kind}, "S3 object_encoding=%s %s nulls=%s" % (enc, kind, pat), object_encoding=enc)
+    elif opt == "object_encoding_dict":
+        # per-column dict; a column missing from the dict is written as raw bytes
+        for pat in ("none", "alt"):
+            df = pd.DataFrame({"a": A.series("str_obj", 9, pat, 0, "a"), "b": A.series("json_obj", 9, pat, 1, "b"),
+                               "c": A.series("bytes_obj", 9, pat, 2, "c"), "d": A.series("str_obj", 9, pat, 3, "d")})
+            kinds = {"a": "str_obj", "b": "json_obj", "c": "bytes_obj", "d": "str_obj"}
+            for oe in ({"a": "utf8", "b": "json", "c": "bytes", "d": "infer"}, {"a": "utf8", "b": "json", "d": "utf8"},
+                       {"a": "infer", "b": "infer", "c": "infer", "d": "infer"}):
+                for ver in (1, 2):
+                    c.ctx = {"nulls": pat, "oe": str(sorted(oe.items())), "v": ver}
+                    with wr.PageCfg(ver, None):
+                        roundtrip(c, df, kinds, "S3 object_encoding=%r nulls=%s v%d" % (oe, pat, ver), object_encoding=oe)
+    elif opt == "wide":
+        run_wide(c, p)
     elif opt == "fixed_text":
         for pat in ("none", "alt"):
             vals = ["abcd", "wxyz", "1234", "éa", "q   ", "....", "abcd", "zzzz", "0000"]
@@ -295,13 +465,140 @@ def run_S3(c, p):
                               compression=comp)
     elif opt == "big":
         kind, n = p["kind"], p["n"]
-        for pat in (["none", "alt", "last"] if kind in A.NULLABLE_KINDS else ["none"]):
-            df = A.series(kind, n, pat).to_frame()
+        for pat in (["none", "alt", "last"] if is_nullable(kind) else ["none"]):
+            df = mk_series(kind, n, pat).to_frame()
             for ver, tiny in ((1, False), (2, False), (1, True)):
                 ps = wr.tiny_page_size(df, 3000) if tiny else None
                 c.ctx = {"nulls": pat, "v": ver, "tiny": tiny, "n": n}
                 with wr.PageCfg(ver, ps):
                     roundtrip(c, df, {"c": kind}, "S3 big %s n=%d nulls=%s v%d tiny=%s" % (kind, n, pat, ver, tiny))
+
+
+WIDE = [("z", "int64", "none", 0), ("a.b", "float64", "alt", 0), ("é", "int64", "none", 3), ("m", "str_obj", "alt", 0),
+        ("B", "float64", "none", 2), ("a", "int64", "none", 5), ("y y", "bool", "none", 0), ("b", "bool", "none", 1),
+        ("d1", "dt_ns", "alt", 0), ("I", "Int64", "alt", 0), ("d0", "dt_ns", "none", 1), ("I0", "Int64", "first", 0),
+        ("c9", "cat_str", "alt", 0), ("c1", "cat_int", "none", 0), ("0", "dt_us_paris", "last", 2)]
+
+
+def run_wide(c, p):
+    """15 columns: same-dtype columns interleaved with others (several columns per pandas block), names in
+    unsorted order with a dot, a blank, upper case and non-ASCII; split by every row_group_offsets form"""
+    import numpy as np
+    import pandas as pd
+    from mc import wr
+    ver, tiny, ip = p["v"], p["tiny"], p["index"]
+    kinds = {name: kind for name, kind, _, _ in WIDE}
+    for n in (9, 10):
+        df = pd.DataFrame({name: mk_series(kind, n, pat, off, name) for name, kind, pat, off in WIDE})
+        assert list(df.columns) == [w[0] for w in WIDE]
+        if ip == "int_labels":
+            df.index = pd.Index(np.arange(n, dtype="int64") * 3 + 5, name="idx")
+        ps = wr.tiny_page_size(df[["z"]], 2) if tiny else None
+        for rgo in (None, 1, 3, 4, 9, 100, 0, [0, 2, 5]):
+            if n == 10 and not isinstance(rgo, int):
+                continue        # 10 rows only change how an int is turned into row-group starts
+            for scheme in ("simple", "hive"):
+                for hn in (True, ["a.b", "m", "d1", "I", "I0", "c9", "0"]):
+                    if hn is not True and isinstance(rgo, int):
+                        continue
+                    c.ctx = {"n": n, "rgo": str(rgo), "scheme": scheme, "has_nulls": "all" if hn is True else "list"}
+                    what = "S3 wide n=%d index=%s rgo=%s %s v%d tiny=%s has_nulls=%s" % (n, ip, rgo, scheme, ver, tiny, hn)
+                    with wr.PageCfg(ver, ps):
+                        out = roundtrip(c, df, kinds, what, path_kind=scheme, row_group_offsets=rgo, has_nulls=hn)
+                    check_index(c, df, out, what, ip == "int_labels")
+
+
+def index_of(ik, n):
+    """(index, written, expected names) of an S4 index kind"""
+    import datetime
+    import numpy as np
+    import pandas as pd
+    r = np.arange(n, dtype="int64")
+    if ik == "int_unnamed":
+        return pd.Index(r * 3 + 5), True, ["index"]
+    if ik == "uint64":
+        return pd.Index((r * 7).astype("uint64") + np.uint64(2 ** 63 + 5), name="u"), True, ["u"]
+    if ik == "float64":
+        return pd.Index(r * 0.5 - 1.25, name="f"), True, ["f"]
+    if ik == "Int64":
+        return pd.Index(pd.array(list(r * 2 - 3), dtype="Int64"), name="I"), True, ["I"]
+    if ik == "dt_s":
+        return pd.Index((r * 86400 + 32_503_680_000).view("M8[s]"), name="when"), True, ["when"]     # year 3000
+    if ik == "dt_us_tz":
+        i = pd.DatetimeIndex((r * 86_400_000_000 * 30 + 1_600_000_000_123_456).view("M8[us]"), name="when")
+        return i.tz_localize("UTC").tz_convert("America/New_York"), True, ["when"]
+    if ik == "td_us":
+        return pd.Index((r * 1_000_001 - 5).view("m8[us]"), name="dur"), True, ["dur"]
+    if ik == "cat":
+        return pd.CategoricalIndex(["q%d" % (i % 4) for i in range(n)], categories=["q3", "q0", "q1", "q2", "unused"],
+                                   name="ci"), True, ["ci"]
+    if ik == "multi2":
+        return pd.MultiIndex.from_arrays([r // 2 + 10, ["k%d" % (i % 3) for i in range(n)]], names=["l0", "l1"]), \
+            True, ["l0", "l1"]
+    if ik == "range_named":
+        return pd.RangeIndex(5, 5 + n, 1, name="rn"), False, ["rn"]
+    if ik == "range_neg":
+        return pd.RangeIndex(3 * n + 1, 1, -3), False, [None]
+    raise KeyError(ik)
+
+
+def run_S4(c, p):
+    """index family: one data column + one index kind; values, names and dtype of the index come back"""
+    import pandas as pd
+    from mc import wr
+    ik, kind = p["ik"], p["kind"]
+    for n in (0, 1, 9):
+        s = mk_series(kind, n, "alt" if (is_nullable(kind) and n > 1) else "none", 1, "a")
+        idx, written, names = index_of(ik, n)
+        df = pd.DataFrame({"a": s})
+        df.index = idx
+        for rgo in (None, [0, 2, 5]):
+            rgo_eff = [x for x in rgo if x < max(n, 1)] if isinstance(rgo, list) else rgo
+            for scheme in ("simple", "hive"):
+                for ver in (1, 2):
+                    c.ctx = {"scheme": scheme, "rgo": str(rgo), "v": ver}
+                    what = "S4 index=%s col=%s n=%d rgo=%s %s v%d" % (ik, kind, n, rgo, scheme, ver)
+                    with wr.PageCfg(ver, None):
+                        out = roundtrip(c, df, {"a": kind}, what, path_kind=scheme, row_group_offsets=rgo_eff)
+                    if out is None or (scheme == "hive" and n == 0):
+                        continue
+                    check_index_full(c, df, out, what, ik, written, names)
+
+
+def check_index_full(c, df, out, what, ik, written, names):
+    """values (tuples for a MultiIndex), names and dtype of the index"""
+    import pandas as pd
+    from mc import oracles as O
+    if not written and len(df) == 0:
+        return            # nothing is stored for a range index of 0 rows
+    if list(out.index.names) != names:
+        c.bad("wrong_index", "%s: index names %r, expected %r" % (what, list(out.index.names), names), part="name")
+        return
+    exp = [O.canon_cell(x) for x in (df.index.astype(object) if ik == "cat" else df.index).tolist()]
+    got = [O.canon_cell(x) for x in (out.index.astype(object) if isinstance(out.index.dtype, pd.CategoricalDtype)
+                                     else out.index).tolist()]
+    i = O.first_diff(got, exp)
+    if i is not None:
+        c.bad("wrong_index", "%s: index label %s is %r, written %r" % (
+            what, i, got[i] if i >= 0 else len(got), exp[i] if i >= 0 else len(exp)), part="value")
+        return
+    if ik == "multi2":
+        if out.index.nlevels != 2:
+            c.bad("wrong_index", "%s: %d index levels, written 2" % (what, out.index.nlevels), part="levels")
+        return
+    if len(df) == 0:
+        return
+    odt, gdt = df.index.dtype, out.index.dtype
+    kind = {"int_unnamed": "int64", "uint64": "uint64", "float64": "float64", "Int64": "Int64", "dt_s": "dt_s",
+            "dt_us_tz": "dt_us_ny", "td_us": "td_us", "cat": "cat_str", "range_named": "int64",
+            "range_neg": "int64"}[ik]
+    why = dtype_why(odt, gdt, kind)
+    if not why and ik == "cat":
+        oc, gc = list(df.index.categories), list(out.index.categories)
+        if oc != gc or bool(df.index.ordered) != bool(out.index.ordered):
+            why = "categories %r ordered=%s came back as %r ordered=%s" % (oc, df.index.ordered, gc, out.index.ordered)
+    if why:
+        c.bad("wrong_index", "%s: index dtype: %s" % (what, why), part="dtype")
 
 
 def roundtrip_values_only(c, df, what, as_text=False, **wkw):
@@ -332,10 +629,13 @@ def roundtrip_values_only(c, df, what, as_text=False, **wkw):
 
 
 LEVEL_TEXT = ("Bounded-exhaustive lattice over (column kind x null pattern x row count x has_nulls x stats x codec x "
-              "page version x page size) for every supported dtype, pairs of kinds with every index program, "
-              "row-group split and file scheme, and the option sub-lattices (times, object_encoding, fixed_text, "
-              "compression dicts, sizes around 8192); each point is a real write followed by a real read compared "
-              "cell by cell and dtype by canonical form.")
-LEVEL_NOTE = ("Trusted: pandas/numpy for building and comparing frames. Value pools are finite; frames have at most two "
-              "data columns; a write that raises is accepted (the property allows it).")
+              "page version x page size) for every supported dtype (incl. int16/int32 category codes, every "
+              "timedelta unit, sub-second and out-of-ns-range datetimes, half-hour and named zones), pairs of kinds "
+              "with every index program, row-group split and file scheme, a 15-column frame under every "
+              "row_group_offsets form, the index family (11 index kinds), and the option sub-lattices (times x page "
+              "layouts, object_encoding str/dict, fixed_text, compression dicts, sizes around 8192); each point is a "
+              "real write followed by a real read compared cell by cell, dtype by canonical form, time zone by UTC "
+              "offset, index by values, names and dtype.")
+LEVEL_NOTE = ("Trusted: pandas/numpy for building and comparing frames. Value pools are finite; frames have one, two or "
+              "15 data columns; a write that raises is accepted (the property allows it).")
 TECHNIQUE = "bounded exhaustive enumeration of frames x write options, real write+read vs the input frame"
